@@ -37,7 +37,16 @@ def texts_for(entry, kind):
 
     rich = ''.join(alpha[:6]) or 'abc'
     exotic = ''.join(alpha[-6:]) or 'xyz'
-    return [
+    extra = []
+
+    try:
+        if '\ufeff'.encode(entry['canon']).decode(entry['canon']) == '\ufeff':
+            extra = ['a' + nl + '\ufeffsecond line starts with U+FEFF' + nl,
+                     '\ufefffirst' + nl + 'b']
+    except UnicodeError:
+        pass
+
+    return extra + [
         'a' + nl + 'b',
         'first line' + nl + rich + nl + '  indented ' + exotic + nl,
         exotic,
@@ -264,7 +273,7 @@ def checks():
             rule='the whole computed catalogue: every stateless text codec x '
                  'every spelling of its name (aliases, case and hyphen/'
                  'underscore variants, BOM-emitting and -sig variants) x '
-                 '{unix, dos, undeclared} x indent {0,3} x 3 texts from the '
+                 '{unix, dos, undeclared} x indent {0,3} x 3-5 texts from the '
                  'codec\'s repertoire; helpers return the BOM-free encoded '
                  'newline, writer bytes are identical apart from the spelled '
                  'name and equal the reference serialisation, and reading '
